@@ -189,7 +189,8 @@ template<class Pool> static void scn_pool(size_t p, Pool&& pl, Pool&& pl2)
 	std::vector<void*> bs, bs2;
 	G([&] { for (size_t i = 0; i < p; ++i) bs.push_back(pl.template Allocate<void>()); });
 	for (size_t i = 0; i + 2 < bs.size(); i += 3) { pl.Deallocate(bs[i]); bs[i] = nullptr; }
-	G([&] { for (size_t i = 0; i < p / 2 + 1; ++i) bs2.push_back(pl2.template Allocate<void>()); });
+	G([&] { for (size_t i = 0; i < p + 2; ++i) bs2.push_back(pl2.template Allocate<void>()); });
+	if (bs2.size() > 4) { pl2.Deallocate(bs2[bs2.size() - 2]); bs2.erase(bs2.end() - 2); }
 	G([&] { pl.MergeFrom(pl2); for (void* b : bs2) bs.push_back(b); bs2.clear(); });
 	G([&] { for (size_t i = 0; i < 3; ++i) bs.push_back(pl.template Allocate<void>()); });
 	for (void* b : bs2) pl2.Deallocate(b);
@@ -361,6 +362,19 @@ static bool dispatch(const std::string& scn, const std::string& el, size_t p)
 	{
 		typedef MemPool<MemPoolParams<>, kit::MM> Pool;
 		Pool a(MemPoolParams<>(24), kit::MM(1)), b(MemPoolParams<>(24), kit::MM(1));
+		scn_pool(p, std::move(a), std::move(b));
+	}
+	else if (scn == "pool2")
+	{	// 2 blocks per buffer: both pools own FULL buffers (linked before the free-buffer head) and a partly free head buffer,
+		// so MergeFrom has to splice full buffers in front of the destination's head (the situation of fix 7f37c9f)
+		typedef MemPool<MemPoolParams<2, 0>, kit::MM> Pool;
+		Pool a(MemPoolParams<2, 0>(24), kit::MM(1)), b(MemPoolParams<2, 0>(24), kit::MM(1));
+		scn_pool(p, std::move(a), std::move(b));
+	}
+	else if (scn == "pool4")
+	{
+		typedef MemPool<MemPoolParams<4, 3>, kit::MM> Pool;
+		Pool a(MemPoolParams<4, 3>(16), kit::MM(1)), b(MemPoolParams<4, 3>(16), kit::MM(1));
 		scn_pool(p, std::move(a), std::move(b));
 	}
 	else if (scn == "pool1")
